@@ -18,7 +18,14 @@ def sh(cmd, **kw):
 
 
 def main():
-    spec = json.load(open(sys.argv[1]))
+    if sys.argv[1] == "--seeded":
+        import glob
+        spec = []
+        for d in sorted(glob.glob("/verif/seeded/*/")):
+            meta = json.load(open(d + "meta.json"))
+            spec.append(dict(id="seeded-" + os.path.basename(d.rstrip("/")), prop=meta["property"], patch=d + "patch.diff"))
+    else:
+        spec = json.load(open(sys.argv[1]))
     filt = sys.argv[2:]
     if not os.path.isdir(MUT):
         print(sh(f"git -C /repo worktree add --detach {MUT} HEAD").stdout)
